@@ -215,7 +215,7 @@ func evaluateCaseExpressionValueWithNull(node *ExprNode, data map[string]any) (a
 	}
 
 	// Evaluate CASE expression value
-	caseValue, caseIsNull, err := evaluateNodeValueWithNull(caseExpr.Value, data)
+	caseValue, caseIsNull, err := evaluateOperandWithNull(caseExpr.Value, data)
 	if err != nil {
 		return nil, false, err
 	}
@@ -223,7 +223,7 @@ func evaluateCaseExpressionValueWithNull(node *ExprNode, data map[string]any) (a
 	// Iterate through WHEN clauses
 	for _, whenClause := range caseExpr.WhenClauses {
 		// Evaluate WHEN value
-		whenValue, whenIsNull, err := evaluateNodeValueWithNull(whenClause.Condition, data)
+		whenValue, whenIsNull, err := evaluateOperandWithNull(whenClause.Condition, data)
 		if err != nil {
 			return nil, false, err
 		}
